@@ -1211,13 +1211,14 @@ package flags
 //@ axiom manual subRest_def: forall name string, sub *Command :: hasPrefix(name, sub.Name + ".") ==> subRest(name, sub) == name[len(sub.Name + "."):]
 //@ assumed func subPfx(name string, sub *Command) (r bool)
 //@   pure
-//@ axiom manual subPfx_def: forall name string, sub *Command :: subPfx(name, sub) == hasPrefix(name, sub.Name + ".")
+// (a section name "<sub>." with nothing after the dot names nothing: C14, unknown sections are reported)
+//@ axiom manual subPfx_def: forall name string, sub *Command :: subPfx(name, sub) == (hasPrefix(name, sub.Name + ".") && len(name) > len(sub.Name) + 1)
 //@ pure func claimsSub(name string, sub *Command) bool = ite(subPfx(name, sub), sub.groupByName(subRest(name, sub)) != nil, name == sub.Name)
 //@ pure func claimedSub(name string, sub *Command) *Group = ite(subPfx(name, sub), sub.groupByName(subRest(name, sub)), sub.Group)
 //@ pure func claims(c *Command, name string, i int) bool = claimsSub(name, c.commands[i])
 //@ pure func claimed(c *Command, name string, i int) *Group = claimedSub(name, c.commands[i])
 //@ func (c *Command) groupByName(name string) (g *Group)
-//@   props C12 C13 C04
+//@   props C12 C13 C04 C14
 //@   pure
 //@   requires c != nil
 //@   loop 1 invariant forall(i, 0, idx_1, !claims(c, name, i))
